@@ -21,6 +21,7 @@ import tempfile
 VERIF = os.path.dirname(os.path.dirname(os.path.abspath(__file__)))
 REPO = '/repo'
 SCRATCH = os.path.join(tempfile.gettempdir(), 'vseed')
+REPLAY = False
 
 
 def sh(cmd, **kw):
@@ -40,8 +41,12 @@ def run_checks(check, checks, tier, env=None):
                 rp = v[0].split('replay=')[1].split()[0]
                 what = json.load(open(os.path.join(os.path.dirname(check), rp))).get('what', '')
                 outs[-1] += ' :: ' + what[:160]
-            except Exception:
-                pass
+                if REPLAY and 'no-failing-input-found' not in v[0]:
+                    # the stored case must fail again when replayed against the changed tree
+                    rr = sh([check, p, 'replay', rp], cwd=os.path.dirname(check), env=env)
+                    outs[-1] = f'[replay exit={rr.returncode}{"" if rr.returncode == 1 else " !!REPLAY-DOES-NOT-REPRODUCE"}] ' + outs[-1]
+            except Exception as e:   # noqa: BLE001
+                outs[-1] += f' (replay check failed: {e})'
     return caught, outs
 
 
@@ -91,8 +96,11 @@ def main():
     ap.add_argument('-j', type=int, default=6)
     ap.add_argument('--tier', default='quick')
     ap.add_argument('--inplace', action='store_true')
+    ap.add_argument('--replay', action='store_true', help='also re-run the stored replay against the changed tree')
     ap.add_argument('ids', nargs='*')
     a = ap.parse_args()
+    global REPLAY
+    REPLAY = a.replay
     root = os.path.join(VERIF, 'seeded')
     ids = a.ids or sorted(d for d in os.listdir(root) if os.path.isdir(os.path.join(root, d)))
     rc_all = 0
